@@ -58,8 +58,8 @@ def benign_edits(repo):
     b = s.index("\n  }\n", a)
     s = s[:a] + s[a:b].replace("posaxis", "wrapped_axis") + s[b:]
     open(j("src/libawkward/array/RegularArray.cpp"), "w").write(s)
-    sub(j("src/libawkward/array/ListArray.cpp"), r"    int64_t posaxis = axis_wrap_if_negative\(axis\);\n    if \(posaxis == depth\) \{\n      return rpad_axis0\(target, false\);",
-        "    int64_t posaxis;\n    posaxis = axis_wrap_if_negative(axis);\n    if (posaxis == depth) {\n      return rpad_axis0(target, false);")
+    sub(j("src/libawkward/array/ListArray.cpp"), r"    int64_t posaxis = axis_wrap_if_negative\(axis, depth\);\n    if \(posaxis == depth\) \{\n      return rpad_axis0\(target, false\);",
+        "    int64_t posaxis;\n    posaxis = axis_wrap_if_negative(axis, depth);\n    if (posaxis == depth) {\n      return rpad_axis0(target, false);")
     # 4. Python: comments, a renamed local, reformatting
     sub(j("src/awkward/_util.py"), r"^def completely_flatten", "# benign twin comment\n\n\ndef completely_flatten", flags=re.M)
     sub(j("src/awkward/partition.py"), r"    def rpad\(self, length, axis\):\n        if first\(self\)", "    def rpad(self, length, axis):\n        # benign comment\n        if first(self)")
